@@ -98,6 +98,7 @@ func runC07(c *Ctx) {
 	runC07RemoveIf(c, pi)
 	runC07FromRaw(c, pi)
 	runC07MapCopy(c)
+	runC07OwnState(c, pi)
 }
 
 func paramName(fn *ssa.Function, i int) string {
